@@ -56,7 +56,7 @@ claimed = {
    technique=AI + " of the gradient-context constructors and the walk over all flag combinations; field-write ownership dataflow", ref="4/C08"),
  'C09': dict(
    text=("Every public entry point is interpreted with symbolic/unconstrained integer arguments, nil values and every configuration case: Tensor methods (error iff precondition, defined shape, no reachable panic: index/slice bounds, nil dereference, failed assertion, explicit panic), package tensor constructors, TensorOf on ragged data, Concat/BackPropagate on nil lists/tensors, component constructors and Forward/Compute/Accumulate/Update/Init with invalid inputs."),
-   note=TRUST + " Termination beyond the interpreter's step budget, typed-nil pointers inside interfaces and integer overflow are not decided.",
+   note=TRUST + " Termination beyond the interpreter's step budget and integer overflow are not decided.",
    technique=AI + ": guard contracts (error iff precondition) and panic reachability on symbolic arguments", ref="4/C09"),
  'C10': dict(
    text=("S4 write provenance over every Store/MapUpdate/copy/append of the library (each write targets memory allocated by the same call, obligations on parameters discharged at every caller); S5 retention of caller slices (no store, escaping capture or return of a caller's slice header; returned slices fresh); S3 ownership of tensor/context fields; plus a store observer in every interpreted run that flags any write to a cell existing before the call. A sound effect argument for all programs and histories."),
@@ -121,6 +121,19 @@ claimed['C15']['text'] += " The gradient is compared at the leaf AND at the inte
 claimed['C14']['text'] += " The caller's config struct is changed after construction: Forward must keep the construction-time values."
 claimed['C18']['text'] += " S13: Init does not park the tensor it returns (each call returns a fresh object)."
 claimed['C10']['text'] += " S13 (no tensor parked in component state)."
+# round-5 additions
+for k in ('C03', 'C04', 'C05', 'C06'):
+    claimed[k]['text'] += " Result probes: the result object of every labelled instance is handed, as built by the implementation, to Scale(c), Sum(), Add(itself) and - after one element was replaced through Patch - again to Scale and Sum; all must see the specified elements (private bookkeeping carried by results cannot disagree with the data)."
+claimed['C02']['text'] += " Premises re-run: the Tensor methods the backward rules invoke accept what their specification accepts (A4.pre rejects-valid, A4.shape, S6.panic with symbolic sizes); the walk on the DAG templates spends exactly the tracked ancestors of the root (C08.bp), ResetGradContext leaves a fresh leaf."
+claimed['C07']['text'] += " The reducers the Broadcast rule is composed of are re-checked in labelled-element mode, incl. all-+Inf operands (a sum of equal infinities is that infinity: 'all upstream gradients')."
+claimed['C08']['text'] += " S3.result-fresh: every tensor-producing method returns an object allocated by that call. Zero-gradient templates (x.Pow(0) above a product of tracked leaves). Statelessness premises (S8, package-state part of S4, S5) as in the other properties."
+claimed['C09']['text'] += " Plus: a labelled run of every method on the shapes straddling the implementation's own size constants (S6.panic/S6.hang), the statelessness rules, and S16 lock pairing (every Lock is released or deferred on every path to a return; acquire/release helpers summarised; exercised on an embedded example on every run because today's tree takes no lock)."
+claimed['C10']['text'] += " S3.result-fresh: no operation returns an operand as its result."
+claimed['C20']['text'] += " S3.result-fresh (no operation returns an operand as its result) and S16 lock pairing."
+for k in ('C12', 'C14', 'C16', 'C17', 'C19'):
+    claimed[k]['text'] += " The invoked methods are also re-checked with symbolic sizes (accept what the specification accepts), and every failing tensor operation is shown to return an untyped nil (the components' nil checks rely on it)."
+for k in ('C11', 'C13', 'C15', 'C16'):
+    claimed[k]['text'] += " The C02 obligations of the differentiable methods the package invokes, the precondition / shape / element agreement of the methods THOSE rules invoke, the walk templates and C08.reset are re-run as premises."
 reasons_na = {
  'C11': "compositional over C01, C02, C07, C08, C10, C16, C17 (each claimed separately); the end-to-end trajectory clause is not yet decided by its own check - build in progress",
  'C13': "compositional over C12, C01, C02 (each claimed separately); an end-to-end check of the loss gradients through the real BackPropagate is being built",
